@@ -9,6 +9,7 @@ import sansldap as L
 
 from vf import abs as A
 from vf.checks import c14
+from vf.checks import common as K
 from vf.engine import evid, par
 from vf.ref import filt
 
@@ -127,6 +128,12 @@ def _rec(loc: evid.Local, s: str, gen: t.Any = None) -> None:
 
 
 def _work(job: t.Tuple[t.Any, ...]) -> evid.Local:
+    # a library call that never returns is reported (CallDoesNotReturn), it does not hang the check
+    with K.watchdog():
+        return _work_cases(job)
+
+
+def _work_cases(job: t.Tuple[t.Any, ...]) -> evid.Local:
     loc = evid.Local()
     fam = job[0]
     if fam == "all":
@@ -163,6 +170,15 @@ def _work(job: t.Tuple[t.Any, ...]) -> evid.Local:
         for v in ["\\5c5c41", "\\5c41", "\\5c5c", "\\5C2a", "\\5c\\5c28", "\\5c5c5c5c", "\\5c2A\\5c"]:
             for tpl in ["(cn={v})", "(cn={v}*)", "(cn=*{v})", "(cn=a*{v}*b)", "(cn={v}*{v})", "(cn~={v})", "(cn:dn:1.2:={v})", "(&(cn={v}*)(o=*{v}*))"]:
                 _rec(loc, tpl.format(v=v))
+        # a backslash followed by two characters that are NOT both hex digits, in every item form: whatever a lenient hex
+        # decoder makes of them (white space skipped, signs, prefixes, digits from other scripts), accepting the text is only
+        # allowed if the result's own text form parses back to it
+        two = [a + b for a in " \t\n0aF+-_xg" for b in " \t0aF+-_xG\u0660\uff11"]
+        for p2 in two:
+            if all(ch in "0123456789abcdefABCDEF" for ch in p2):
+                continue
+            for tpl in ["(cn=\\{p})", "(cn=\\{p}*smith)", "(cn=john*\\{p}*smith)", "(cn=*\\{p})", "(cn~=a\\{p}b)", "(cn:dn:1.2:=\\{p})", "cn=\\{p}*"]:
+                _rec(loc, tpl.format(p=p2))
     elif fam == "huge":
         # very long tokens in every position (digit runs beyond the interpreter's int<->str limit, block sizes of 4 KiB / 8 KiB / 64 KiB)
         for n in (300, 4300, 4301, 5000, 70000):
